@@ -69,6 +69,45 @@ pub fn check_layout(m: &Module, seps: &[Sep], ascii: bool) -> Result<Stats, Fail
         (Ok(_), Err(e)) => return Err(("model-differs:relayout-rejected".into(), format!("the plain layout parses, the re-layout is rejected: {e:?}"))),
         (Err(e), Ok(_)) => return Err(("model-differs:plain-rejected".into(), format!("the re-layout parses, the plain layout is rejected: {e:?}"))),
     }
+    // the file-based entry point (asn1rs::converter::Converter::load_file + to_rust) on a sample of
+    // the layouts without oversized runs: the generated Rust files must be the plain layout's
+    if rendered.text.len() < 20_000 && hash_of(&rendered.text) % 16 == 0 {
+        let via_converter = |text: &str, tag: &str| -> Result<Result<Vec<(String, Vec<String>)>, String>, String> {
+            let dir = std::env::temp_dir().join(format!("verif-c13-{}-{:016x}-{tag}", std::process::id(), hash_of(&text)));
+            let _ = std::fs::create_dir_all(&dir);
+            let file = dir.join("m.asn1");
+            let _ = std::fs::write(&file, text);
+            let out = dir.join("out");
+            let _ = std::fs::create_dir_all(&out);
+            let r = catch(|| -> Result<Vec<(String, Vec<String>)>, String> {
+                let mut c = asn1rs::converter::Converter::default();
+                c.load_file(&file).map_err(|e| format!("{e:?}").chars().take(120).collect::<String>())?;
+                let files = c.to_rust(&out, |_| {}).map_err(|e| format!("{e:?}").chars().take(120).collect::<String>())?;
+                let mut v = Vec::new();
+                for (model, names) in files {
+                    let mut contents: Vec<String> = names.iter().map(|n| std::fs::read_to_string(out.join(n)).unwrap_or_default()).collect();
+                    contents.sort();
+                    v.push((model, contents));
+                }
+                v.sort();
+                Ok(v)
+            });
+            let _ = std::fs::remove_dir_all(&dir);
+            r
+        };
+        let a = via_converter(&plain, "p").map_err(|p| ("harness:converter-panics-on-plain".to_string(), p))?;
+        let b = via_converter(&rendered.text, "l").map_err(|p| ("converter-panic".to_string(), format!("Converter::load_file / to_rust panicked on a re-layout: {p}")))?;
+        match (a, b) {
+            (Ok(x), Ok(y)) => {
+                if x != y {
+                    return Err(("converter:generated-files-differ".into(), "Converter::load_file + to_rust generate different Rust files for the re-layout than for the plain layout".into()));
+                }
+            }
+            (Err(_), Err(_)) => {}
+            (Ok(_), Err(e)) => return Err(("converter:relayout-rejected".into(), format!("Converter::load_file accepts the plain layout and rejects the re-layout: {e}"))),
+            (Err(e), Ok(_)) => return Err(("converter:plain-rejected".into(), format!("Converter::load_file accepts the re-layout and rejects the plain layout: {e}"))),
+        }
+    }
     // locations: "Each token's reported location equals the line and column at which it actually starts."
     if ascii {
         let mut k = 0usize;
@@ -120,7 +159,7 @@ fn case_json(m: &Module, seps: &[Sep], ascii: bool) -> J {
     json!({"module": serde_json::to_value(m).unwrap(), "ascii": ascii, "separators": seps.iter().map(|s| s.render()).collect::<Vec<_>>(), "separator_kinds": seps.iter().map(|s| s.kind()).collect::<Vec<_>>(), "text": rendered.text, "plain": render_plain(&toks)})
 }
 
-const RULE: &str = "generated front-end-profile modules (proptest) are printed as a list of lexical items; a layout chooses a separator at every item boundary from {empty (where no separator is required), space, tab, LF, CRLF, lone CR, two blanks, blank+LF, '-- text' line comments, '/* text */' block comments, nested block comments; comments with and without adjacent blanks; comment text containing dashes, lone '*' and '/', quotes, keywords, line breaks}. Oracle: the token sequence (kind + text) of the layout equals that of the plain layout, the parsed and resolved models are equal, and (ASCII layouts) every token's Location equals the line/column where the printer put its first character. Non-trivial: the layout uses >= 1 comment or line break; distinct = hash of the text.";
+const RULE: &str = "generated front-end-profile modules (proptest) are printed as a list of lexical items; a layout chooses a separator at every item boundary from {empty (where no separator is required), space, tab, LF, CRLF, lone CR, two blanks, blank+LF, '-- text' line comments, '/* text */' block comments, nested block comments; comments with and without adjacent blanks; comment text containing dashes, lone '*' and '/', quotes, keywords, line breaks}. Oracle: the token sequence (kind + text) of the layout equals that of the plain layout, the parsed and resolved models are equal, a sample of the layouts gives identical generated Rust files through the file-based entry point Converter::load_file + to_rust, and (ASCII layouts) every token's Location equals the line/column where the printer put its first character. Non-trivial: the layout uses >= 1 comment or line break; distinct = hash of the text.";
 
 pub fn run(ctx: Ctx) -> i32 {
     let report = Report::new(ctx.clone(), RULE);
